@@ -20,7 +20,9 @@
   "serializing identically" is equality of the serialized documents (strict: 1 and 1.0 differ).
 -/
 import TypedpyModel.Lemmas.TrustedCtor
+import TypedpyModel.Lemmas.TrustedMap
 import TypedpyModel.Lemmas.Fast
+import TypedpyModel.Lemmas.Mappers
 namespace Typedpy.C10
 open Typedpy
 
@@ -587,5 +589,195 @@ theorem mapper_inherited (b : TMapper) :
 
 example : mapKey (mapEnvOf [("A", { ser := some .lower, deser := some (.rename [("a_b", "k")]) })] "A") "a_b" = "k" := by
   decide
+
+/-! ## 5. order of first use: a fresh FastSerializable class whose first instance a trusted path makes -/
+
+/-- **C10 (first use), proved part**: the trusted constructor reaches `FastSerializable.__init__`
+    (which installs the class's serializer) once per supplied keyword, so for an instance made
+    from at least one value it does not matter whether the class was instantiated before:
+    `x.serialize()` is the document of the installed serializer -/
+theorem first_use_partial (Mp : MapEnv) (NF JK : List String) (had : Bool) (cls : FieldDecl) (x : PyVal)
+    (h : (attrsOf x).isEmpty = false) :
+    fastSerializeFirst Mp NF JK had cls x = fastSerialize Mp NF JK false false cls x := by
+  simp [fastSerializeFirst, installedAfterTrustedInit, h]
+
+/-- … and on a class that already has its serializer the history never matters -/
+theorem first_use_warm (Mp : MapEnv) (NF JK : List String) (cls : FieldDecl) (x : PyVal) :
+    fastSerializeFirst Mp NF JK true cls x = fastSerialize Mp NF JK false false cls x := by
+  simp [fastSerializeFirst, installedAfterTrustedInit]
+
+/-- the statement at full strength (history independence for every trusted-built instance) -/
+def first_use_statement : Prop :=
+  ∀ (Mp : MapEnv) (NF JK : List String) (cls : FieldDecl) (x : PyVal),
+    fastSerializeFirst Mp NF JK false cls x = fastSerializeFirst Mp NF JK true cls x
+
+/-- finding `first-use-order:no-values`: an instance made from no values leaves a fresh class
+    without its serializer: `serialize()` raises NotImplementedError where the warm class (and the
+    regular path) return `{}` -/
+def cxFirstUse : FieldDecl := mkCls "A" [] [("a", .integer {})]
+theorem counterexample_first_use_no_values :
+    createOk noMappers [] cxFirstUse = true
+    ∧ isErr (fastSerializeFirst noMappers [] [] false cxFirstUse (.inst "A" [])) = true
+    ∧ isDictDoc (fastSerializeFirst noMappers [] [] true cxFirstUse (.inst "A" [])) = true
+    ∧ isDictDoc (serialize exO cxFirstUse (.inst "A" [])) = true := by
+  decide
+
+theorem first_use_statement_false : ¬ first_use_statement := by
+  intro h
+  have h1 := counterexample_first_use_no_values.2.1
+  have h2 := counterexample_first_use_no_values.2.2.1
+  rw [h noMappers [] [] cxFirstUse (.inst "A" [])] at h1
+  cases hx : fastSerializeFirst noMappers [] [] true cxFirstUse (.inst "A" []) with
+  | ok v => rw [hx] at h1; cases h1
+  | error e => rw [hx] at h2; cases h2
+
+/-- non-vacuity: a trusted-built instance with values on a fresh class serializes as on a warm one -/
+theorem first_use_example :
+    (attrsOf (.inst "A" [("a", .int 1)])).isEmpty = false
+    ∧ isDictDoc (fastSerializeFirst noMappers [] [] false cxFirstUse (.inst "A" [("a", .int 1)])) = true := by
+  decide
+
+/-! ## 6. key-renaming mappers: trusted ≡ regular with one simple mapper per class -/
+
+/-- **the trusted path with mappers factors through the key translation**: with one simple mapper
+    per class (`simpleEnv`: NO_MAPPER / TO_CAMELCASE / TO_LOWERCASE / a flat rename dict, resolved
+    per class by `MapperDecl.resolved`), for every eligible class of the region `tsafeCls` at any
+    nesting depth and EVERY document, `direct_trusted_mapping=True` returns what the mapper-free
+    trusted path returns for the document with every class-level object's keys translated back to
+    field names by its class's own mapper (`untrV`) -/
+theorem trusted_mapper_factor (Mp : MapEnv) (hM : simpleEnv Mp) (O : Oracles) (opts : DeserOpts)
+    (cls : FieldDecl) (d : PyVal) (he : eligible Mp cls = true) (hs : tsafeCls cls = true) :
+    deserializeTrusted Mp O opts cls d = deserializeTrusted noMappers O opts cls (untrV Mp cls d) :=
+  c10_trusted_factor Mp hM O opts cls d he hs
+
+/-- simple mappers do not change the classifier's verdict -/
+theorem mapper_verdict_invariant (Mp : MapEnv) (hM : simpleEnv Mp) (cls : FieldDecl) :
+    verdictOf Mp cls = verdictOf noMappers cls := c10_verdict_simple Mp hM cls
+
+/-- **C10 (trusted deserialization WITH mappers), proved part**: for every eligible class tree of
+    the region `tsafeCls` whose classes each have a simple mapper, and every document that the
+    regular path with those mappers (`deserializeMapped`: every class-level object read through its
+    class's own mapper) accepts and whose translation lies in `plainDoc`: the trusted path
+    succeeds, the instances are `==` and serialize to the same document.  (The regular path with
+    mappers outside `deserializeMapped` — an enclosing class's TO_CAMELCASE / TO_LOWERCASE reaching
+    nested classes, chained parent mappers, field-name fallback — is the known-finding region
+    `mapper:cascade` / `mapper:base-chain` / `mapper:fallback`.) -/
+theorem trusted_mapper_equiv_partial (Mp : MapEnv) (hM : simpleEnv Mp) (O : Oracles) (opts : DeserOpts)
+    (cls : FieldDecl) (d x : PyVal)
+    (he : eligible Mp cls = true) (hs : tsafeCls cls = true)
+    (hp : plainDoc opts cls (untrV Mp cls d) = true)
+    (hr : deserializeMapped Mp O opts cls d = .ok x) :
+    ∃ y, deserializeTrusted Mp O opts cls d = .ok y ∧ eqv x y = true
+      ∧ serialize O cls y = serialize O cls x := by
+  rw [trusted_mapper_factor Mp hM O opts cls d he hs]
+  rw [c10_eligible_simple Mp hM] at he
+  exact trusted_equiv_partial O opts cls (untrV Mp cls d) x he hs hp hr
+
+/-- non-vacuity: a rename mapper on the outer class, TO_CAMELCASE on the nested one, a document
+    spelled with each class's own keys -/
+def exMapInner : FieldDecl := mkCls "In" ["first_name"] [("first_name", str0), ("age", .integer {})]
+def exMapOuter : FieldDecl :=
+  mkCls "Out" ["who"] [("who", exMapInner), ("all_of", .seqOf .list exMapInner {}), ("n", .anyOf [.integer {}, .noneF])]
+def exMapEnv : MapEnv := fun n =>
+  if n == "Out" then .rename [("who", "person"), ("all_of", "everyone")] else if n == "In" then .camel else .none
+def exMapDoc : PyVal :=
+  .dict [(.str "person", .dict [(.str "firstName", .str "a"), (.str "age", .int 3)]),
+         (.str "everyone", .list [.dict [(.str "firstName", .str "b")]]), (.str "n", .none)]
+theorem trusted_mapper_example :
+    eligible exMapEnv exMapOuter = true ∧ tsafeCls exMapOuter = true
+    ∧ plainDoc {} exMapOuter (untrV exMapEnv exMapOuter exMapDoc) = true
+    ∧ isOk (deserializeMapped exMapEnv exO {} exMapOuter exMapDoc) = true
+    ∧ isErr (deserialize exO {} exMapOuter exMapDoc) = true
+    ∧ (match deserializeMapped exMapEnv exO {} exMapOuter exMapDoc,
+             deserializeTrusted exMapEnv exO {} exMapOuter exMapDoc with
+        | .ok x, .ok y => eqv x y
+        | _, _ => false) = true := by
+  decide
+
+theorem exMapEnv_simple : simpleEnv exMapEnv := by
+  intro n
+  simp only [exMapEnv]
+  split
+  · rfl
+  · split <;> rfl
+
+/-! ### the key table of the trusted path is the one C07's model of the regular path resolves -/
+
+/-- a simple mapper of this model as the mapper list of `Sem/Mappers.lean` (C07) -/
+def toMappers : TMapper → List Mappers.Mapper
+  | .none => []
+  | .camel => [.camel]
+  | .lower => [.lower]
+  | .rename d => [.dict (d.map fun p => (Mappers.MKey.fld p.1, Mappers.MV.key p.2))]
+  | .complex _ => []
+
+theorem c10_lookupR_rename (f : String) : ∀ d : List (String × String),
+    Mappers.lookupR (Mappers.MKey.fld f) (d.map fun p => (Mappers.MKey.fld p.1, Mappers.MV.key p.2))
+      = (lookupLast f d).map Mappers.MV.key
+  | [] => rfl
+  | (k, v) :: r => by
+    simp only [List.map_cons, Mappers.lookupR, lookupLast, c10_lookupR_rename f r]
+    cases lookupLast f r with
+    | some x => rfl
+    | none =>
+      simp only [Option.map_none]
+      by_cases h : k = f
+      · subst h; simp
+      · have h' : (f == k) = false := by simp [Ne.symm h]
+        simp [h, h']
+
+/-- the key of field `f` under C07's pointwise specification `keyOf` of the aggregated mapper is
+    `mapKey m f`, the key the trusted path (and the fast serializer) uses -/
+theorem mapKey_is_keyOf (m : TMapper) (f : String) :
+    Mappers.keyOf Mappers.asciiFns (toMappers m) f = .key (mapKey m f) := by
+  cases m with
+  | none => rfl
+  | camel => rfl
+  | lower => rfl
+  | complex l => rfl
+  | rename d =>
+    simp only [toMappers, Mappers.keyOf, List.foldl_cons, List.foldl_nil, Mappers.stepKey, Mappers.mapsTo,
+      Mappers.applyKey, c10_lookupR_rename, mapKey]
+    cases lookupLast f d with
+    | none => simp
+    | some t =>
+      simp only [Option.map_some, Option.getD_some]
+      split <;> rename_i h
+      · have : f = t := by simpa using h
+        rw [this]
+      · rfl
+
+/-- **composition with C07's model of the regular path**: in the mapper `aggregate_serialization_mappers`
+    (`forSer = true`) / `aggregate_deserialization_mappers` (`forSer = false`) resolve for a class
+    whose only mapper is the simple mapper `m`, every field `f` of the class is keyed by
+    `mapKey m f` — the entry `get_flat_resolved_mapper` gives the trusted path and
+    `create_serializer` gives the fast path -/
+theorem trusted_key_is_regular_key (m : TMapper) (forSer : Bool) (fs : List Mappers.Fld) (f : String)
+    (hf : fs.any (fun fl => fl.name == f) = true) :
+    Mappers.lookupR (.fld f) (Mappers.aggregate Mappers.asciiFns forSer (toMappers m) fs none false)
+      = some (.key (mapKey m f)) := by
+  have := mapKey_is_keyOf m f
+  unfold Mappers.keyOf at this
+  unfold Mappers.aggregate
+  rw [Mappers.lookupR_foldAdd_fld, Mappers.lookupR_baseFields, hf]
+  simp only [if_true, Option.map_some, Mappers.effList, Bool.false_eq_true, if_false, List.append_nil]
+  rw [this]
+
+/-- a mapper declared only by a parent class is collected twice by the regular path
+    (`_get_all_values_of_attribute` sees the inherited attribute again): for a rename dict the second
+    application changes nothing, so the regular path reads the keys of `MapperDecl.resolved` -/
+theorem mapper_inherited_twice_rename (d : List (String × String)) (f : String) :
+    Mappers.keyOf Mappers.asciiFns
+        (Mappers.collect none [some (.single (.dict (d.map fun p => (Mappers.MKey.fld p.1, Mappers.MV.key p.2)))), none]) f
+      = .key (mapKey ({ baseSer := some (.rename d) } : MapperDecl).resolved f) := by
+  have h1 := mapKey_is_keyOf (.rename d) f
+  simp only [toMappers, Mappers.keyOf, List.foldl_cons, List.foldl_nil] at h1
+  simp only [Mappers.collect, Mappers.ClassAttr.toList, List.append_nil, List.cons_append, List.nil_append,
+    Mappers.keyOf, List.foldl_cons, List.foldl_nil, h1]
+  show Mappers.stepKey _ _ f (.key (mapKey (.rename d) f)) = _
+  simp only [Mappers.stepKey, Mappers.mapsTo, c10_lookupR_rename, mapKey]
+  cases h : lookupLast f d with
+  | none => simp [Mappers.applyKey, c10_lookupR_rename, MapperDecl.resolved, mapKey, h]
+  | some t => simp [MapperDecl.resolved, mapKey, h]
 
 end Typedpy.C10
